@@ -38,7 +38,14 @@ template <class Mesh> void HistRun<Mesh>::op_add_cell_vertices(R &r, const std::
             if (found_used && found_free) return;   // ambiguous duplicates: which one the lookup returns is not specified
         }
         if (!all_free && !check) return;            // would put a halfface into two cells: outside the valid-argument space
-        CellHandle c = r.mesh->add_cell(vv, check);
+        bool check_variant_4args = KID == 1 && ((vs[0] + vs[1] + vs[2] + vs[3]) & 1);
+        if (check_variant_4args && !all_free) check_variant_4args = false;   // (the four-handle form checks through add_cell(halffaces, check): same outcome, but keep the rejected case on the documented path)
+        CellHandle c;
+        if constexpr (KID == 1) {
+            // the tet kernel has two vertex entry points: the vector form (find_halfface + add_face) and the four-handle form (add_halfedge / add_halfface)
+            if (check_variant_4args) { c = r.mesh->add_cell(vv[0], vv[1], vv[2], vv[3], check); st.add("probe_tet_add_cell_4_handles"); }
+            else c = r.mesh->add_cell(vv, check);
+        } else c = r.mesh->add_cell(vv, check);
         adopt(r);
         if (!all_free) {
             if (c.is_valid() || m.n(BC) != before) ctx.fail(ow, "add_cell-accepted-invalid", "a needed halfface already has a cell");
